@@ -91,4 +91,8 @@ class Action:
         for effect in self.numeric_effects:
             effect.change_signature(old_to_new_parameter_names)
 
-        # TODO: change the signature of the conditional and universal effects.
+        for conditional_effect in self.conditional_effects:
+            conditional_effect.change_signature(old_to_new_parameter_names)
+
+        for universal_effect in self.universal_effects:
+            universal_effect.change_signature(old_to_new_parameter_names)
